@@ -227,7 +227,7 @@ def run_history(hist: List[list]) -> Dict[str, Any]:
 
 def _worker_main():
     data = json.load(sys.stdin)
-    fn = {"hist": run_history, "meta": run_meta, "loop": run_loop}
+    fn = {"hist": run_history, "meta": run_meta, "loop": run_loop, "roles": run_roles}
     out = {"tbl": class_table(), "res": []}
     import gc
     import test.dataset.university_ontology_like_classes  # noqa  (fixed set of Symbol classes per worker)
@@ -398,6 +398,65 @@ def run_loop(payload) -> Dict[str, Any]:
                                sum(len(v) for v in sg._class_to_wrapped_instances.values()),
                                len(sg._instance_graph.edge_list()), sum(len(v) for v in sg._relation_index.values())],
                      "exprs": len(emap) - e0, "rwx": len(RWXNode._graph.node_indices()) - r0})
+    return {"rows": rows}
+
+
+def run_roles(payload) -> Dict[str, Any]:
+    """Role-taker relations (CEO is a role played by a Person; `ceo.head_of = company` infers company.members ∋ ceo and,
+    through the role taker, person.member_of ∋ company).  Each round hires (and optionally hands the role over), then the
+    program gives up every reference to the persons / role objects that left, while the company (and so the edges that end
+    in it) may live on.  Reports who is still alive right after gc.collect() -- before any sweep -- and after a sweep."""
+    import gc
+    import weakref
+    from krrood.entity_query_language.symbol_graph import SymbolGraph
+    from test.dataset.university_ontology_like_classes import Company, Person, CEO
+
+    gc.collect()
+    SymbolGraph().clear()
+    SymbolGraph()
+    keep_company = payload["keep_company"]
+    company = Company(name="K") if keep_company else None
+    rows = []
+    for it in range(payload["iters"]):
+        c = company if keep_company else Company(name=f"C{it}")
+        gone = []
+        stay = []
+        for k in range(payload["hires"]):
+            person = Person(name=f"p{it}_{k}")
+            ceo = CEO(person)
+            ceo.head_of = c
+            ok = (ceo in c.members) and (c in person.member_of)
+            if payload["mode"] == "handover":
+                former = ceo.person
+                ceo.person = Person(name=f"q{it}_{k}")
+                c.members.discard(former)
+                gone.append(weakref.ref(former))
+                del former
+                stay.append(ceo)          # the role object and its new holder stay
+            else:
+                c.members.discard(ceo)
+                c.members.discard(person)
+                gone += [weakref.ref(person), weakref.ref(ceo)]
+            del person, ceo
+        gc.collect()
+        alive_before_sweep = sum(1 for r in gone if r() is not None)
+        SymbolGraph().remove_dead_instances()
+        gc.collect()
+        alive_after_sweep = sum(1 for r in gone if r() is not None)
+        sg = SymbolGraph()
+        live_nodes = sum(1 for w in sg._instance_graph.nodes() if w.instance is not None)
+        rows.append({"inferred": bool(ok), "alive_before_sweep": alive_before_sweep, "alive_after_sweep": alive_after_sweep,
+                     "nodes": len(sg._instance_graph.nodes()), "live_nodes": live_nodes, "by_id": len(sg._instance_index)})
+        if payload["mode"] == "handover":
+            # next round the role objects that stayed are released too
+            for x in stay:
+                c.members.discard(x)
+                c.members.discard(x.person)
+            del x
+        stay.clear()
+        if not keep_company:
+            del c
+        gc.collect()
     return {"rows": rows}
 
 
